@@ -116,6 +116,10 @@ fn run_case(arena: &mut Arena, c: &Case) -> Outcome {
     let r = match r {
         Err(p) => {
             out.v.push(("C15", format!("panic/{}", panic_site(&p)), format!("panic: {}", p)));
+            // the call covers the emplacement AND the observation of the result (read back, size(), re-validation):
+            // a value that cannot be observed also fails C03 and C05
+            out.v.push(("C03", format!("panic/{}", panic_site(&p)), format!("panic while emplacing / reading back: {}", p)));
+            out.v.push(("C05", format!("panic/{}", panic_site(&p)), format!("panic while emplacing / taking size(): {}", p)));
             out.class = "panic".into();
             return out;
         }
@@ -314,7 +318,17 @@ impl Engine for Emplace {
                     _ => format!("{:?}", c.v),
                 };
                 let replay = json!({"engine": "emplace", "shape": c.s.id(), "vi": c.vi, "value": vtxt, "scale": c.scale, "biglast": c.biglast, "kind": kname(c.kind), "entry": ename(c.entry), "n": c.n, "off": c.off, "fill": c.fill});
-                for (p, key, detail) in &o.v {
+                // C15's last clause: an accepted emplacement "then satisfies C03" — what C03 reports on an accepted
+                // new_in_place / FlatWrap::new_in_place is a C15 violation as well
+                let mut extra: Vec<(&'static str, String, String)> = vec![];
+                if c.entry != Entry::Default && o.class == "ok" {
+                    for (p, key, detail) in &o.v {
+                        if *p == "C03" {
+                            extra.push(("C15", format!("accepted_but_{}", key), detail.clone()));
+                        }
+                    }
+                }
+                for (p, key, detail) in o.v.iter().chain(extra.iter()) {
                     if let Some(acc) = m.get_mut(p) {
                         acc.violate(format!("emplace/{}/{}/{}", key, ename(c.entry), fam), format!("{} value={} kind={} n={} off={} fill={:02x}: {}", c.s.id(), vtxt, kname(c.kind), c.n, c.off, c.fill, detail.chars().take(800).collect::<String>()), replay.clone());
                     }
